@@ -87,6 +87,7 @@ fn main() {
     match o.prop.as_str() {
         "C02" => vm::run(&o),
         "C05" => asm::run(&o),
+        "C19" => asm::run_seq(&o),
         other => {
             eprintln!("unknown property {other}");
             std::process::exit(2);
